@@ -11,7 +11,7 @@ RULE = ('the real bilform_matrix (test == trial) is assembled on random aspect-b
         'the three scaling factors c^T S c of the hierarchical estimator are positive. distinct = distinct (curve, mesh, switch) '
         'matrices + distinct child blocks')
 ASSUMPTIONS = ['meshes with aspect h_x^2/h_t <= 32, up to ~120 elements (quick) / ~500 (thorough)']
-REQUIRED = {t: ['matrix:full', 'matrix:child-block', 'switch:exact', 'switch:quad', 'slabs:several', 'mesh:graded-in-space',
+REQUIRED = {t: ['matrix:full', 'matrix:child-block', 'switch:exact', 'switch:quad', 'slabs:several', 'mesh:graded-in-space', 'matrix:pool-path',
                 'curve:UnitSquare', 'curve:PiSquare', 'curve:LShape', 'curve:Circle', 'curve:UnitInterval']
             for t in ('quick', 'thorough')}
 TIMEOUT = {'quick': 900, 'thorough': 7200}
@@ -114,6 +114,21 @@ def run_shard(spec, acc):
                 raise
             acc.violation('assembly-raised:%s:%s' % (fr[0], type(ex).__name__), '%s: raised at %s:%d' % (curve, fr[1], fr[2]), wit0)
             continue
+        if len(elems) >= 17 and len(elems) * len(elems) >= 100 and not exact:
+            # the matrix as the pool path delivers it, with one worker (chunks of several columns per task)
+            import multiprocessing as mp
+            real_cpu = mp.cpu_count
+            mp.cpu_count = lambda: 1
+            try:
+                Ap = SL.bilform_matrix(elems, elems, use_mp=True)
+            finally:
+                mp.cpu_count = real_cpu
+            lam_p, chol_p = scaled_lambda_min(Ap)
+            acc.case('%s|%d|%s|full-pool' % (curve, spec['rseed'], sw), None)
+            acc.seen('matrix:pool-path')
+            if not (lam_p > 0.01) or not chol_p:
+                acc.violation('symmetric-part-not-definite:full-pool:' + sw, '%s: lambda_min = %r for the matrix assembled by the process pool (%d elements; serial: %r)'
+                              % (curve, lam_p, len(elems), scaled_lambda_min(A)[0]), dict(wit0, pw_exact=exact, path='pool'))
         lam, chol = scaled_lambda_min(A)
         acc.case('%s|%d|%s|full' % (curve, spec['rseed'], sw), None)
         acc.seen('matrix:full')
